@@ -150,13 +150,17 @@ pub async fn restore(
             }
             Kind::Symlink => {
                 monitor.count(Counter::Symlinks, 1);
-                // Remember it even if it can't be created: when overwriting an earlier restore
-                // the link is already there, and entries below it must still not be followed.
-                restored_symlinks.insert(entry.apath.clone());
                 if let Err(err) = restore_symlink(&path, &entry) {
+                    // When overwriting an earlier restore the link is already there: entries
+                    // below it must not be followed either. (If something else is in the way,
+                    // such as a directory restored from an earlier entry, there is no link.)
+                    if std::fs::symlink_metadata(&path).is_ok_and(|m| m.file_type().is_symlink()) {
+                        restored_symlinks.insert(entry.apath.clone());
+                    }
                     monitor.error(err);
                     continue;
                 }
+                restored_symlinks.insert(entry.apath.clone());
             }
             Kind::Unknown => {
                 monitor.error(Error::InvalidMetadata {
